@@ -21,6 +21,10 @@ pub struct Case {
     /// on earlier ones)
     #[serde(default)]
     pub more: Vec<(u16, u8)>,
+    /// variables added to the builder (new_var) after the i-th smoothing: 0, 1 or 2 each time, while fewer than 8
+    /// exist; a later smoothing then works over a longer order than an earlier one on the same builder
+    #[serde(default)]
+    pub grow: Vec<u8>,
     /// per label: (low, high) small integers
     pub weights: Vec<(u8, u8)>,
     /// per label: residues selector for the finite-field count
@@ -219,7 +223,7 @@ fn go<'a, T: IteTable<'a, BddPtr<'a>> + Default>(
     for op in case.ops.iter() {
         run.step(op);
     }
-    let n = run.n;
+    let mut n = run.n;
     let mut calls: Vec<(u16, u8)> = vec![(case.target, case.ns)];
     calls.extend(case.more.iter().copied().take(4));
     let mut first: Option<(bool, bool, bool, bool, BddPtr<'a>, usize)> = None;
@@ -234,12 +238,23 @@ fn go<'a, T: IteTable<'a, BddPtr<'a>> + Default>(
         }
         run.pool.push((s, bdd_tt(s)));
         distinct_ns.insert(ns);
+        if call_no + 1 < calls.len() {
+            run.max_new_vars = 8;
+            for _ in 0..case.grow.get(call_no).copied().unwrap_or(0) % 3 {
+                run.step(&BOp::NewVar(true));
+            }
+            if run.n > n {
+                st.bump("order_extended_between_two_smoothings");
+                n = run.n;
+            }
+        }
         if first.is_none() {
             first = Some((skip_top, skip_mid, skip_bot, shorter, f, ns));
         }
     }
     st.flag("several_smooth_calls_with_different_ns", distinct_ns.len() >= 2);
     let (skip_top, skip_mid, skip_bot, shorter, f, ns) = first.unwrap();
+    let n = n.min(case.weights.len());
     let wr: Vec<(f64, f64)> = (0..n)
         .map(|v| {
             let (l, h) = case.weights.get(v).copied().unwrap_or((1, 1));
@@ -274,15 +289,17 @@ impl SubCheckT for Smooth {
             idx_strategy(),
             any::<u8>(),
             proptest::collection::vec((idx_strategy(), any::<u8>()), 0..=3),
+            prop_oneof![2 => Just(vec![]), 1 => proptest::collection::vec(0u8..3, 3)],
             proptest::collection::vec((0u8..7, 0u8..7), 8),
             proptest::collection::vec((any::<u8>(), any::<u8>()), 8),
         )
-            .prop_map(|(cfg, ops, target, ns, more, weights, ff)| Case {
+            .prop_map(|(cfg, ops, target, ns, more, grow, weights, ff)| Case {
                 cfg,
                 ops,
                 target,
                 ns,
                 more,
+                grow,
                 weights,
                 ff,
             })
